@@ -280,8 +280,9 @@ def check_b(unit: tuple, max_m: int, media: Tuple[str, ...]) -> Dict[str, Any]:
 def _work(job: tuple) -> Dict[str, Any]:
     part, unit, max_m, media = job
     try:
-        res = check_a(unit, max_m, media) if part == 'A' else check_b(unit, max_m, media)
-    except explore.Hang as hang:  # pragma: no cover
+        with explore.watchdog(20 * explore.WATCHDOG_S):
+            res = check_a(unit, max_m, media) if part == 'A' else check_b(unit, max_m, media)
+    except explore.Hang as hang:
         res = {'n': 1, 'nontrivial': 0, 'restores': 0, 'violations': [{'clause': 'hang', 'features': {'part': part}, 'detail': str(hang),
                                                                        'case': {'part': part, 'unit': unit}}]}
     res['violations'] = res['violations'][:20]
